@@ -4,6 +4,7 @@ import (
 	"errors"
 	"fmt"
 	"io"
+	"math"
 	"reflect"
 )
 
@@ -60,6 +61,9 @@ func (a Ary[LEN]) ReadFrom(r io.Reader) (n int64, err error) {
 	}
 	if Len < 0 {
 		return n, errors.New("array length less than zero")
+	}
+	if int64(Len) > math.MaxInt32 {
+		return n, errors.New("array length too large")
 	}
 
 	array := reflect.ValueOf(a.Ary)
